@@ -33,3 +33,39 @@ func VerifParseMetadataPath(path string) (bool, string) { return parseMetadataPa
 
 // VerifNewMockBucket exposes the in-memory bucket used by the package's own tests.
 func VerifNewMockBucket(items map[string][]byte) Bucket { return mockBucket{items} }
+
+// VerifRange mirrors srcDstRange.
+type VerifRange struct{ Src, Dst, Len uint64 }
+
+// VerifPlan is one merged request of MergeRanges: its range and copy/discard list, flattened.
+type VerifPlan struct {
+	Rng VerifRange
+	CDs [][2]uint64
+}
+
+func VerifReencodeEntries(dir []EntryV3) ([]EntryV3, []VerifRange, uint64, uint64, uint64) {
+	re, rs, total, addressed, contents := reencodeEntries(dir)
+	out := make([]VerifRange, len(rs))
+	for i, r := range rs {
+		out[i] = VerifRange{r.SrcOffset, r.DstOffset, r.Length}
+	}
+	return re, out, total, addressed, contents
+}
+
+func VerifMergeRanges(ranges []VerifRange, overfetch float32) ([]VerifPlan, uint64) {
+	in := make([]srcDstRange, len(ranges))
+	for i, r := range ranges {
+		in[i] = srcDstRange{r.Src, r.Dst, r.Len}
+	}
+	l, total := MergeRanges(in, overfetch)
+	var out []VerifPlan
+	for e := l.Front(); e != nil; e = e.Next() {
+		or := e.Value.(overfetchRange)
+		p := VerifPlan{Rng: VerifRange{or.Rng.SrcOffset, or.Rng.DstOffset, or.Rng.Length}}
+		for _, cd := range or.CopyDiscards {
+			p.CDs = append(p.CDs, [2]uint64{cd.Wanted, cd.Discard})
+		}
+		out = append(out, p)
+	}
+	return out, total
+}
